@@ -39,7 +39,7 @@ type c13Outer struct {
 
 func c13Env() map[string]any {
 	return map[string]any{
-		"n": 5, "k": 2, "f": 1.5, "s": "str", "e": "", "t": true, "b": false, "ns": "42",
+		"n": 5, "k": 2, "e0": 0, "acc": "\u00e9lan VITAL \u00f6L", "pn": vPtr(7), "f": 1.5, "s": "str", "e": "", "t": true, "b": false, "ns": "42",
 		"sp1": "a b", "sp2": "a  b", "up": "A  b",
 		// variables whose names strconv would take for a boolean or a float
 		"T": 2, "nan": 4, "F": "eff", "big": 300, "minus": -1, "ix": 1, "kk": "k", "formatDate": "FDVAR", "jsonPretty": 7, "yamlFile": "YF", "ue": "h\u00e9llo", "mm": map[string]any{"kk": "LIT", "k": "VAR"}, "fname": "secret.path", "secret": map[string]any{"path": "b.txt"}, "fbig": 1500000.0, "fsmall": 0.00002, "fneg": -2.5e7, "zp": "010", "zip": "08540", "eq3": "a===b", "ne3": "a!==b", "amp2": "a && b", "q3": "a ? b : c",
@@ -936,6 +936,12 @@ func init() {
 			emit(&c13Case{Part: "pipe", Expr: "addn(n, 3)", Shape: "call", Want: "int:8"})
 			emit(&c13Case{Part: "pipe", Expr: "isbig(n)", Shape: "call", Want: "bool:true"})
 			emit(&c13Case{Part: "pipe", Expr: "f | small", Shape: "float-cut-off", Want: "int:1"})
+			// letters of more than one byte at the start of a word; a pointer to a number through the printing filters
+			emit(&c13Case{Part: "pipe", Expr: "acc | title", Shape: "non-ascii-first-letter", Want: "string:\u00c9lan Vital \u00d6l"})
+			emit(&c13Case{Part: "pipe", Expr: "ue | title", Shape: "non-ascii-first-letter", Want: "string:H\u00e9llo"})
+			emit(&c13Case{Part: "pipe", Expr: "pn | string", Shape: "pointer-to-scalar", Want: "string:7"})
+			emit(&c13Case{Part: "pipe", Expr: "pn | escape", Shape: "pointer-to-scalar", Want: "string:7"})
+			emit(&c13Case{Part: "pipe", Expr: "pn | string | prefix('n=')", Shape: "pointer-to-scalar", Want: "string:n=7"})
 			emit(&c13Case{Part: "pipe", Expr: "fsmall | natural", Shape: "float-cut-off", Want: "int:0"})
 			emit(&c13Case{Part: "pipe", Expr: "n | . > 3 ? 'big' : 'small'", Shape: "pipe-dot-expr", Want: "string:big"})
 			emit(&c13Case{Part: "pipe", Expr: "n | double | . > 3", Shape: "pipe-dot-expr", Want: "bool:true"})
@@ -973,6 +979,12 @@ func init() {
 				{"len(l) > 0 && title", "bool:false"}, {"len(l) > 0 && !title", "bool:true"}, {"(title)", "nil:"}, {"double(n) > 0 && shout", "bool:false"}, {"(upper) == nil", "bool:true"}, {"(n) + 1", "int:6"}, {"not (n > k)", "bool:false"},
 			} {
 				emit(&c13Case{Part: "expr", Expr: e.expr, Shape: "registered-function-in-operator-expression", Want: e.want})
+			}
+			// a signed operand of a logical operator, of ! and as the condition of ?: is judged by the truthiness rule
+			for _, e := range []struct{ expr, want string }{
+				{"-n && t", "bool:true"}, {"t && -n", "bool:true"}, {"-n ? 'neg' : 'zero'", "string:neg"}, {"-minus || b", "bool:true"}, {"+n && t", "bool:true"}, {"!(-n)", "bool:false"}, {"-e0 || b", "bool:false"}, {"(-n) && (-k)", "bool:true"},
+			} {
+				emit(&c13Case{Part: "expr", Expr: e.expr, Shape: "signed-operand-of-logical-operator", Want: e.want})
 			}
 			// look-alike pairs on one engine
 			alike := []string{
